@@ -38,7 +38,7 @@ RULE = ("valid cases: G-DAG N<=2 (every base pipeline and every single decoratio
         "(each given on the PipeFunc and as (PipeFunc, mapspec) to Pipeline), inconsistent axes in one consumer (rename / swap / rank-1 / rank+1 of "
         "each indexed array named by >= 2 MapSpecs), bound parameter in a MapSpec; Pipeline-level construction faults in both listing orders. "
         "run-time: dropped input (each root; run(): per requested output, parameters also listed in reverse order), surplus input, zipped axis "
-        "resized +-1 (each root x axis), rank changed (list->2-D ndarray, scalar, 2-D ndarray->nested list / 1-D / 3-D), unknown storage (string, "
+        "resized +-1 (each root x axis; also with the resized root carrying a well-formed default), rank changed (list->2-D ndarray, scalar, 2-D ndarray->nested list / 1-D / 3-D), unknown storage (string, "
         "dict default, dict per output), executor with parallel=False (object, dict default, dict per output), fixed_indices (unknown axis, index = "
         "size on every root axis, every reduced axis); each run-time map fault x start state {no folder, folder holding a previous COMPLETE run "
         "opened with cleanup=False} (+ fresh folder for the storage operator). rich bound (thorough, all stages but the last): additionally "
